@@ -29,8 +29,8 @@ theorem prefix_getElem? {α : Type} (a u : List α) (hp : a <+: u) (i : Nat) (x 
 
 theorem uniqueInOrderN_spec (nan : V → Bool) : ∀ (l acc : List V),
     acc <+: (uniqueInOrderN nan acc l).1 ∧ (uniqueInOrderN nan acc l).2.length = l.length ∧
-    ∀ k x, l[k]? = some x →
-      ∃ i, (uniqueInOrderN nan acc l).2[k]? = some i ∧ (uniqueInOrderN nan acc l).1[i]? = some x := by
+    ∀ (k : Nat) (x : V), l[k]? = some x →
+      ∃ i : Nat, (uniqueInOrderN nan acc l).2[k]? = some i ∧ (uniqueInOrderN nan acc l).1[i]? = some x := by
   intro l
   induction l with
   | nil =>
@@ -158,7 +158,7 @@ theorem removeRepeats_wfi (c : Cat V) (h : c.WFi) (hne : c.idx ≠ []) :
 /-! ### the concatenation loop for any unique values / inverse that reconstruct the elements -/
 
 theorem go_spec_gen (u : List V) (inv : List Nat) (all : List V) (hlen : inv.length = all.length)
-    (hrec : ∀ k x, all[k]? = some x → ∃ i, inv[k]? = some i ∧ u[i]? = some x) :
+    (hrec : ∀ (k : Nat) (x : V), all[k]? = some x → ∃ i : Nat, inv[k]? = some i ∧ u[i]? = some x) :
     ∀ (ps : List (Cat V)) (pre : List V) (s : Nat),
     all = pre ++ (ps.map (·.uniq)).flatten → (∀ p ∈ ps, p.Part) →
     ∃ I E, concatenate.go (u, inv) ps pre.length (s :: runSums s (ps.map Cat.numDumps)) = .ok (I, E) ∧
